@@ -164,7 +164,7 @@ def run(ck):
         mode, out, extra = j
         env = vlib.goenv({"VERIF_OUT": out, "VERIF_MODE": mode, "VERIF_SEED": str(ck.seed), "VERIF_TIER": ck.tier})
         env.update(extra)
-        to = 60 if mode == "witness" else (400 if ck.tier == "quick" else 3000)
+        to = 60 if mode == "witness" else (150 if ck.tier == "quick" else 3000)
         rc, log = vlib.sh([os.path.join(mod, "rt.test"), "-test.run", "TestVerif", "-test.timeout", "%ds" % to],
                           cwd=os.path.join(mod, "rt"), env=env, timeout=to + 30)
         return mode, out, rc, log
